@@ -2,6 +2,7 @@
 the evaluation of the Lean spec predicates (`wf` driver operation) on real entities."""
 import datetime
 import hashlib
+import json
 
 from . import common, specs, recog, dtpipe
 from .common import cps
@@ -35,6 +36,17 @@ def specs_jobs():
 def input_key(culture, query, ref=None):
     h = hashlib.sha1(query.encode('utf-8')).hexdigest()[:10]
     return '%s:%s' % (culture, h)
+
+
+def input_key2(culture, query, ref, what):
+    """input + reference + a short hash of WHAT failed (audit item 24: `input_key` ignores the reference and the failure, so
+    a recorded `triple:` / `shape:` key covered every reference and every failure of the query).  New recorded entries use
+    this key; entries recorded under `input_key` stay valid as a fallback, narrowed by findings/sets/<property>/narrow.json to
+    what was observed for them on the unchanged tree (vcheck `match_known`)."""
+    r = ref.strftime('%Y%m%dT%H%M%S') if hasattr(ref, 'strftime') else str(ref)
+    w = hashlib.sha1((what if isinstance(what, str) else json.dumps(what, sort_keys=True, ensure_ascii=False, default=str)
+                      ).encode('utf-8')).hexdigest()[:8]
+    return '%s:%s:w%s' % (input_key(culture, query), r, w)
 
 
 def wf_line(ent):
